@@ -106,7 +106,7 @@ func sample(w *WF) string { return w.Describe() }
 
 func init() {
 	Register(&Check{ID: "C04", Level: "exploration",
-		Rule: "one case = one generated acyclic workflow (graph shape, stream lengths, bufsize, slots, cores from the gen stream) run once under one tape-chosen schedule (strategy, preemptions, select picks, map orders, command durations). Round 5: Go-function nodes whose parameters are read only by the function (InParam + task.Param), the empty string as a value. Round 6: numeric parameter values through FromInt / FromFloat; CommandToParams sources; equivalent API calls from the api stream. distinct = distinct event-log hash; non-trivial = at least 2 tasks executed and at least one non-default scheduling/map/select/duration choice",
+		Rule: "one case = one generated acyclic workflow (graph shape, stream lengths, bufsize, slots, cores from the gen stream) run once under one tape-chosen schedule (strategy, preemptions, select picks, map orders, command durations). Round 5: Go-function nodes whose parameters are read only by the function (InParam + task.Param), the empty string as a value. Round 6: numeric parameter values through FromInt / FromFloat; CommandToParams sources; equivalent API calls from the api stream. Round 7: FileToParamsReader sources; parameter values that differ in case only; task count under default names. distinct = distinct event-log hash; non-trivial = at least 2 tasks executed and at least one non-default scheduling/map/select/duration choice",
 		Run: func(c *Case) Verdict {
 			var w *WF
 			if c.Tape.Choose(simrt.StGen, 10, 0) == 1 {
@@ -261,7 +261,7 @@ func deadlockSig(inc *Inc) string {
 
 func init() {
 	Register(&Check{ID: "C05", Level: "exploration",
-		Rule: "one case = one generated workflow (incl. several leaf branches, a leaf without out-ports, RunTo) under one tape-chosen schedule; liveness = the incarnation reaches RUN-RETURNED (a state with nothing runnable and no timer is a deadlock); safety evaluated on the snapshot the workflow program takes right after Run returns. Round 5: a command printing 70-300 KB without newline; a command leaving 60/1100 scratch files. Round 6: Go-function tasks; a nested workflow run by a Go function; an extra file that cannot be moved out of the temp directory. distinct = distinct event-log hash; non-trivial = >=2 tasks and >=1 non-default choice",
+		Rule: "one case = one generated workflow (incl. several leaf branches, a leaf without out-ports, RunTo) under one tape-chosen schedule; liveness = the incarnation reaches RUN-RETURNED (a state with nothing runnable and no timer is a deadlock); safety evaluated on the snapshot the workflow program takes right after Run returns. Round 5: a command printing 70-300 KB without newline; a command leaving 60/1100 scratch files. Round 6: Go-function tasks; a nested workflow run by a Go function; an extra file that cannot be moved out of the temp directory. Round 7: several processes without out-ports; dotted process names. distinct = distinct event-log hash; non-trivial = >=2 tasks and >=1 non-default choice",
 		Run: func(c *Case) Verdict {
 			var w *WF
 			generated := false
